@@ -33,6 +33,7 @@ MEM_CALLS = {
 }
 CMP = ("<", "<=", ">", ">=", "==", "!=")
 PROTO_OF = None     # callee name -> function/prototype object with .params (set by the driver)
+DOC_OF = None       # callee name -> {pointer parameter: {integer parameter: coefficient, "": constant}} from the headers
 
 
 class Types:
@@ -464,6 +465,11 @@ class FxAnalyzer:
                 if strip(e["x"]).get("p") or strip(e["y"]).get("p"):
                     return self.ptr_diff(e, env) if op == "-" else TOP
                 a, b = self.ival(e["x"], env), self.ival(e["y"], env)
+                if op == "-" and not self.soft:
+                    # runs a report may rest on: an upper bound of x - y must not come from "y is unsigned, hence >= 0"
+                    rb = self._ival(e["y"], env)
+                    if rb is None or rb[0] is None:
+                        b = (None, b[1])
                 r = self.arith(op, a, b)
                 if op in ("+", "-") and env.facts:
                     l = self.lin(e)
@@ -728,12 +734,7 @@ class FxAnalyzer:
 
     def lin_eval(self, l, env):
         """interval of a linear form; its upper end also uses the facts"""
-        r = (l[1], l[1])
-        for key, c in l[0].items():
-            v = env.get(key)
-            if v is None or v[0] == "p":
-                v = (0, None) if self.ty.is_unsigned(self.ktype.get(key, "")) else TOP
-            r = iv_add(r, iv_mul(v, (c, c)))
+        r = self.plain_eval(l, env)
         if env.facts and l[0]:
             ub = self.fact_bound(l, env)
             if ub is not None and (r[1] is None or ub < r[1]):
@@ -745,7 +746,7 @@ class FxAnalyzer:
         for key, c in l[0].items():
             v = env.get(key)
             if v is None or v[0] == "p":
-                v = (0, None) if self.ty.is_unsigned(self.ktype.get(key, "")) else TOP
+                v = (0, None) if (self.ty.is_unsigned(self.ktype.get(key, "")) and (self.soft or c > 0)) else TOP
             r = iv_add(r, iv_mul(v, (c, c)))
         return r
 
@@ -906,6 +907,74 @@ class FxAnalyzer:
             parts.append(str(l[1]))
         return " + ".join(parts)
 
+    def callee_extents(self, call, env):
+        """(argument index, octets as interval, octets as linear form or None, expressions used) for the buffers of a
+        call whose extents the callee's prototype (`T p[N]`) or its header comment (`[n]p`) gives"""
+        proto = PROTO_OF(call.get("callee")) if PROTO_OF is not None else None
+        if proto is None or getattr(proto, "static", False):
+            return
+        doc = DOC_OF(call["callee"]) or {}
+        names = {p_["n"]: i for i, p_ in enumerate(proto.params)}
+        for pi, p_ in enumerate(proto.params):
+            if pi >= len(call["a"]) or not p_.get("p"):
+                continue
+            arr = self.ty.array(p_.get("ot") or "")
+            if arr:
+                sz = self.ty.sizeof(p_.get("ot"))
+                if sz:
+                    yield pi, (sz, sz), ({}, sz), (call["a"][pi],)
+                continue
+            l = doc.get(p_["n"])
+            if l is None or any(k and (k not in names or names[k] >= len(call["a"])) for k in l):
+                continue
+            pt = self.ty.pointee(self.ty.canon(p_.get("t") or "")) or ""
+            esz = 1 if pt in ("void", "") else self.ty.sizeof(pt)
+            if not esz:
+                continue
+            iv, lf, used = (l.get("", 0), l.get("", 0)), ({}, l.get("", 0)), [call["a"][pi]]
+            for k, c in l.items():
+                if not k:
+                    continue
+                a = call["a"][names[k]]
+                used.append(a)
+                va = self.ival(a, env)
+                if c < 0 and not self.soft:
+                    ra = self._ival(a, env)
+                    if ra is None or ra[0] is None:
+                        va = (None, va[1])          # not "unsigned, hence >= 0" as the ground of an upper bound
+                iv = iv_add(iv, iv_mul(va, (c, c)))
+                la = self.lin_safe(a, env) if lf is not None else None
+                lf = None if la is None else lin_add(lf, lin_scale(la, c))
+            iv = iv_mul(iv, (esz, esz))
+            lf = None if lf is None else lin_scale(lf, esz)
+            if iv[0] is not None and iv[0] < 0:
+                iv = (0, iv[1])
+            yield pi, iv, lf, tuple(used)
+
+    def touch_range(self, call, pi, ln, nl, env, line, used):
+        """the call touches ln (interval) / nl (linear form) octets from its argument pi on"""
+        arg = call["a"][pi]
+        label = "%s(.., %s, ..)" % (call["callee"], self.text(arg))
+        p = self.pval(arg, env)
+        if p is None and self.sym_ext:
+            sr = self.sroot(arg, env)
+            if sr is not None and ln[1] != 0:
+                self.note_sym(line, label, sr[0], sr[1], nl, env, used)
+        if p is None or ln[1] == 0:
+            return
+        lo = p[3][0]
+        hi = None if p[3][1] is None or ln[1] is None else p[3][1] + ln[1]
+        pl = self.plin(arg, env)
+        if pl is not None and nl is not None:
+            # offset and length as one linear form: `block + n, 32 - n` ends at 32 whatever n is
+            end = self.lin_eval(lin_add(pl, nl), env)
+            if end[1] is not None and (hi is None or end[1] < hi):
+                hi = end[1]
+        # a state that went round a loop may owe its values to the unrolling of a sentinel loop: not "definite"
+        first_pass = env.get(("#be",)) is None
+        self.note(line, label, p[1], p[2], lo, hi, used, env,
+                  min_end=None if (not first_pass or p[3][0] is None or ln[0] is None) else p[3][0] + ln[0])
+
     def check_expr(self, e, env, line, under_addr=False):
         """examine the accesses of e (sub-expressions included) in env"""
         if not isinstance(e, dict):
@@ -951,27 +1020,11 @@ class FxAnalyzer:
                 ln = self.ival(e["a"][spec[1]], env)
                 nl = self.lin_safe(e["a"][spec[1]], env)
                 for pi in spec[0]:
-                    p = self.pval(e["a"][pi], env)
-                    if p is None and self.sym_ext and pi < len(e["a"]):
-                        sr = self.sroot(e["a"][pi], env)
-                        if sr is not None and ln[1] != 0:
-                            self.note_sym(line, "%s(.., %s, ..)" % (e["callee"], self.text(e["a"][pi])), sr[0], sr[1], nl, env,
-                                          (e["a"][pi], e["a"][spec[1]]))
-                    if p is None:
-                        continue
-                    lo = p[3][0]
-                    hi = None if p[3][1] is None or ln[1] is None else p[3][1] + ln[1]
-                    if ln[1] == 0:
-                        continue
-                    pl = self.plin(e["a"][pi], env)
-                    if pl is not None and nl is not None:
-                        # offset and length as one linear form: `block + n, 32 - n` ends at 32 whatever n is
-                        end = self.lin_eval(lin_add(pl, nl), env)
-                        if end[1] is not None and (hi is None or end[1] < hi):
-                            hi = end[1]
-                    self.note(line, "%s(.., %s, ..)" % (e["callee"], self.text(e["a"][pi])), p[1], p[2], lo, hi,
-                              (e["a"][pi], e["a"][spec[1]]), env,
-                              min_end=None if (p[3][0] is None or ln[0] is None) else p[3][0] + ln[0])
+                    self.touch_range(e, pi, ln, nl, env, line, (e["a"][pi], e["a"][spec[1]]))
+            elif e.get("callee") and e.get("callee") != "utilAssert" and DOC_OF is not None:
+                # a callee whose header documents how much of each buffer it uses: `[count]buf`, `octet hash[32]`
+                for pi, ln, nl, used in self.callee_extents(e, env):
+                    self.touch_range(e, pi, ln, nl, env, line, used)
             for a in e["a"]:
                 self.check_expr(a, env, line)
             return
@@ -1583,7 +1636,8 @@ class FxAnalyzer:
     # ---- fixpoint, path states kept apart
     def run(self):
         cfg = self.f.cfg()
-        heads, _ = self.loop_heads(cfg)
+        heads, order_ = self.loop_heads(cfg)
+        rank_ = {nid: i for i, nid in enumerate(order_)}
         env0 = self.entry_env()
         at = {}            # node id -> {key: env}
         summary = {}       # node id -> widened env
@@ -1652,6 +1706,8 @@ class FxAnalyzer:
                 outs = [(s, env) for _, s in node.succ]
             for s, e2 in outs:
                 sid = s.id
+                if sid in heads and rank_.get(nid, 0) >= rank_.get(sid, 0) and e2.get(("#be",)) is None:
+                    e2 = e2.set(("#be",), (1, 1))        # went round a loop
                 if sid in summary:
                     if contains(summary[sid], e2):
                         continue
